@@ -39,6 +39,7 @@ type W3Op struct {
 	Q     []float32 `json:"q,omitempty"`
 	DS    int       `json:"ds,omitempty"`     // dataset slot (0 = the default dataset)
 	Dim   int       `json:"dim,omitempty"`    // override vector dimension (C11/C12)
+	DlMs  int       `json:"dl_ms,omitempty"`  // the client's deadline for this write (default 8 s)
 	DimAt int       `json:"dim_at,omitempty"` // batches: only the DimAt-th item (1-based) gets the overridden dimension (0: all)
 	P     int       `json:"p,omitempty"`
 	R     int       `json:"r,omitempty"`
@@ -636,7 +637,12 @@ func (r *W3Run) startWrite(h *histOp) {
 		return its
 	}
 	name := fmt.Sprintf("%s ids=%v vers=%v", op.K, op.Ids, op.Vers)
-	h.cop = r.s.client(n, name, 8*time.Second, func(ctx context.Context, n *simNode) (interface{}, error) {
+	deadline := 8 * time.Second
+	if op.DlMs > 0 {
+		deadline = time.Duration(op.DlMs) * time.Millisecond
+		name += fmt.Sprintf(" deadline=%dms", op.DlMs)
+	}
+	h.cop = r.s.client(n, name, deadline, func(ctx context.Context, n *simNode) (interface{}, error) {
 		switch op.K {
 		case "ins":
 			return n.svcData.Insert(ctx, &pb.InsertRequest{DatasetId: dsid, Id: idOf(op.Ids[0]).Bytes(), Value: vecOf(op.Ids[0], op.Vers[0], dim), Metadata: metaOf(op.Ids[0], op.Vers[0], "ins")})
@@ -739,6 +745,25 @@ func (r *W3Run) execOps() {
 				s.logf("n%d will crash at durable-write boundary position +%d", n.idx, op.N)
 				s.out.Stat("crash_points_armed", 1)
 			}
+		case "delds":
+			// the dataset is deleted through a node - while earlier writes may still be in flight
+			if op.Node >= 1 && op.Node <= len(s.nodes) && s.nodes[op.Node-1].alive {
+				if info := r.ds[op.DS]; info != nil && info.ackedCreate {
+					id := info.id
+					d := s.client(s.nodes[op.Node-1], fmt.Sprintf("delete-dataset#%d", op.DS), 5*time.Second, func(ctx context.Context, n *simNode) (interface{}, error) {
+						return n.svcDM.Delete(ctx, &pb.UUIDRequest{Id: id.Bytes()})
+					})
+					s.runUntil(func() bool { return d.done }, 8*time.Second)
+					if d.done && d.err == nil {
+						info.ackedDelete = true
+					} else {
+						info.unknownDelete = true
+					}
+					s.out.Stat("datasets_deleted_under_traffic", 1)
+				}
+			}
+		case "track-items":
+			s.trackItems = true
 		case "diskerr":
 			// the N-th next Save / local snapshot of the node fails with a disk error (disk full)
 			if op.Node >= 1 && op.Node <= len(s.nodes) && s.nodes[op.Node-1].alive && op.N > 0 {
